@@ -23,7 +23,7 @@ ASSUMPTIONS = ["reference matcher written from the statement of C19"]
 FLOORS = {"quick": {"model_agreement_checks": 30000, "law_symmetry": 2000, "law_monotonic": 5000,
                     "law_duality": 2000, "law_subscribe": 2000, "law_offer_roundtrip": 50, "law_for_service": 2000,
                     "exhaustive_domains_completed": 3,
-                    "offer_entries_matched_in_decoder_form": 5000,
+                    "offer_entries_matched_in_decoder_form": 5000, "descriptions_of_a_subclass_with_preset_ids": 5000,
                     "offer_roundtrips_with_the_transport_protocol_as_a_plain_number": 2000}}
 
 W_I, W_M, W_N = 0xFFFF, 0xFF, 0xFFFFFFFF
@@ -67,6 +67,20 @@ class Checker:
                                           l4proto=H.L4Protocols.UDP, port=3000),
                      H.SOMEIPSDLoadBalancingOption(priority=1, weight=2))
         self.tcp_ep = H.IPv4EndpointOption(address=__import__("ipaddress").IPv4Address("10.1.2.4"), l4proto=H.L4Protocols.TCP, port=3001)
+
+    def typed(self):
+        if not hasattr(self, "_typed"):
+            import dataclasses
+
+            @dataclasses.dataclass(frozen=True)
+            class ClimateService(self.C.Service):
+                service_id: int = 0x1111
+                instance_id: int = 1
+                major_version: int = 2
+                minor_version: int = 7
+
+            self._typed = ClimateService
+        return self._typed
 
     def svc(self, t, egs=frozenset()):
         return self.C.Service(t[0], t[1], t[2], t[3], eventgroups=frozenset(egs))
@@ -112,6 +126,16 @@ class Checker:
             offer=L.matches_offer(offer), find=L.matches_find(find),
             service=L.matches_service(R), subscribe=L.matches_subscribe(sub),
         )
+        if self.n % 3 == 0:
+            # an application's own description class (a subclass that presets the ids of "its" service as field defaults) matches
+            # by the values it carries, like the base class
+            T = self.typed()
+            Lt = T(l[0], l[1], l[2], l[3], eventgroups=frozenset(egs))
+            ctx.count("descriptions_of_a_subclass_with_preset_ids")
+            got_t = dict(offer=Lt.matches_offer(offer), find=Lt.matches_find(find), service=Lt.matches_service(R),
+                         subscribe=Lt.matches_subscribe(sub))
+            if got_t != got:
+                self.bad("description-of-a-subclass-with-preset-ids-matches-differently", left=l, right=r, got=got_t, base=got)
         exp = dict(
             offer=ref("offer", l, r), find=ref("find", l, r), service=ref("service", l, r),
             subscribe=ref("subscribe", l, r) and egid in egs,
